@@ -15,7 +15,7 @@ class C02(ProgramProperty):
             "unknown prefix; identifiers '', containing the delimiter, '/', '#', space, non-ASCII, lone surrogate) "
             "each queried through expand, expand_pair, expand_reference, expand_all, expand_pair_all, is_curie, "
             "parse_curie, plus malformed CURIE strings. Non-trivial = some pair uses a synonym or the empty "
-            "prefix, or an identifier containing the delimiter.")
+            "prefix, or an identifier containing the delimiter. 35 % of the converters are built through a history (part of the records, queries, then new records and merges that add synonyms, optionally a rejected call); 30 % live on and receive a late record whose names include one containing the delimiter, after which every name of that record is queried.")
     assumptions = ["prefixes that violate DelimOK although they do not contain the delimiter are known finding K2"]
 
     def gen(self, rng, tier):
